@@ -43,6 +43,15 @@ CHECKS = {
   note=TB + "Aliasing/object identity of copy() is outside the functional model and checked on the implementation only.",
   tech="Coq proof over a model regenerated from the Python source (translator + GenEq) + exhaustive correspondence",
   ref="4/C07"),
+ "C10": dict(
+  text="C10_exact_core (minimize with default options under a monotone test with a unique minimal core returns exactly the core, "
+       "for every n, every core, every input with distinct atoms) and C10_test_count (total tests incl. the initial check "
+       "<= (2m+1)*ceil(log2 n)+5m+8, proved with the exact constants by a potential function for every n <= 2^31 and every core) are "
+       "Coq theorems; C10_test_count_unbounded_n_refuted proves the bound FALSE beyond 2^31 atoms (default --max 2^30). Tie: trace "
+       "correspondence on every subset core for n <= 8/10 x line/char/symbol, clustered/spread/random cores up to n = 4096.",
+  note=TB + "The count theorem carries the hypothesis n <= 2^31 (the statement is refuted in Coq beyond it; not replayable on the implementation).",
+  tech="Coq proof (corollary of 1-minimality; potential function for the count) + trace correspondence over all small cores",
+  ref="4/C10"),
  "C11": dict(
   text="C11_rejected_original / C11_nothing_to_reduce / C11_status / C11_check_only are Coq theorems over the generic "
        "driver model for every strategy and verdict function: a rejected original means exactly one test, no write, "
